@@ -66,6 +66,8 @@ initadd(struct initparser *p, struct init *new)
 static void
 subobj(struct initparser *p, struct type *t, unsigned long long off)
 {
+	if (t->incomplete)
+		error(&tok.loc, "initializer specified for flexible array member");
 	off += p->sub->offset;
 	if (++p->sub == p->obj + LEN(p->obj))
 		fatal("internal error: too many designators");
